@@ -488,6 +488,43 @@ func genScenarios(seed int64, count, maxN int) []Scenario {
 	return out
 }
 
+// allDags enumerates every DAG over n nodes (edges only from lower to higher ids), all nodes selected, with one failing
+// node chosen by the seed (keep-going twice as often as fail-fast): graph shapes are covered systematically, schedules sampled.
+func allDags(seed int64, n int) []Scenario {
+	rng := rand.New(rand.NewSource(seed))
+	policies := []string{"random", "starve_walk", "walk_first", "prefer_complete", "prefer_cancel", "starve_cancel"}
+	type edge struct{ from, to int }
+	var edges []edge
+	for to := 2; to <= n; to++ {
+		for from := 1; from < to; from++ {
+			edges = append(edges, edge{from, to})
+		}
+	}
+	var out []Scenario
+	for mask := 0; mask < 1<<len(edges); mask++ {
+		deps := make([][]int, n)
+		for k := range deps {
+			deps[k] = []int{}
+		}
+		for b, e := range edges {
+			if mask&(1<<b) != 0 {
+				deps[e.to-1] = append(deps[e.to-1], e.from)
+			}
+		}
+		sel := make([]int, n)
+		for k := range sel {
+			sel[k] = k + 1
+		}
+		fail := []int{1 + rng.Intn(n)}
+		if rng.Intn(6) == 0 {
+			fail = []int{}
+		}
+		out = append(out, Scenario{ID: mask + 1, N: n, Deps: deps, Selected: sel, FailFast: rng.Intn(3) == 0, NumWorkers: 1 + rng.Intn(3),
+			Fail: fail, ExtCancel: -1, Policy: policies[rng.Intn(len(policies))], Seed: rng.Int63()})
+	}
+	return out
+}
+
 // TestDrive is the entry point used by bin/check: VERIF_WALK_OUT names the result file;
 // VERIF_WALK_IN (optional) names a JSON list of scenarios to run instead of generated ones.
 func TestDrive(t *testing.T) {
@@ -514,7 +551,11 @@ func TestDrive(t *testing.T) {
 		if maxN == 0 {
 			maxN = 6
 		}
-		scs = genScenarios(seed, count, maxN)
+		if n, _ := strconv.Atoi(os.Getenv("VERIF_WALK_ALLDAGS")); n > 0 {
+			scs = allDags(seed, n)
+		} else {
+			scs = genScenarios(seed, count, maxN)
+		}
 	}
 	if p := os.Getenv("VERIF_WALK_POLICY"); p != "" {
 		for i := range scs {
